@@ -288,6 +288,27 @@ def d7_timeout(ctx):
             # (the body stores probing_state := Complete right before, which retires the atom: tie the store to the taken branch)
             okc = okc and any((ccfg.dominates(tt, bb) and not ccfg.dominates(ff, bb)) or (ccfg.dominates(ff, bb) and not ccfg.dominates(tt, bb)) for (sb, tt, ff) in brs)
         ctx.chk.ob("D7", "check_probing_complete touches the deadline field only after its own `still probing` test", okc and nst >= 1, "", key="D7:probing-clear-only-while-probing")
+    # ... which is safe only because no REG1 can be outstanding while the probes are: a REG_NGP that arrives during the probe wait
+    # (first, duplicate or unsolicited) is consumed by the probing phase and never selects a REG1 target
+    ng = ctx.w.fn(R + "::handle_reg_ngp")
+    if ng is None:
+        ctx.chk.missing("D7", R + "::handle_reg_ngp", "")
+    else:
+        npa = ctx.pa(ng)
+        wait = npa.find(lambda a: (is_call(a, name_contains="PartialEq") and any(is_field(x, "probing_state", R) for x in walk(a)) and "WaitingForProbes" in repr(a)) or
+                        (a[0] == "is" and is_field(a[1], "probing_state", R) and a[2] == "WaitingForProbes"))
+        sts = [(bb, si, st) for bi_ in [0] for (bb, si, st) in
+               [(bb, si, st) for bb, blk in enumerate(ng.blocks) if not blk["cleanup"] for si, st in enumerate(blk["stmts"])
+                if st["k"] == "assign" and st["p"]["proj"] and st["p"]["proj"][0]["k"] == "deref" and st["p"]["l"] == 1]]
+        if len(wait) != 1 or not sts:
+            ctx.chk.missing("D7", "handle_reg_ngp: the `waiting for probes` test / its stores", "%d atoms, %d stores" % (len(wait), len(sts)))
+        else:
+            a0 = wait[0][0]
+            W_ = wait[0][1] if (a0[0] == "is" or a0[1].endswith("::eq")) else npa.bdd.NOT(wait[0][1])
+            for (bb, si, st) in sts:
+                fldn = st["p"]["proj"][-1].get("n")
+                ctx.chk.ob("D7", "handle_reg_ngp stores %s only when the probe wait is over" % fldn, npa.entails(npa.pc_at(bb, si), npa.bdd.NOT(W_)),
+                           "PC = %s" % npa.show(npa.pc_at(bb, si), 3)[:200], key="D7:ngp-consumed-while-probing:%s" % fldn, loc=st.get("loc"))
     sp = ctx.w.fn(R + "::start_probing")
     if sp is not None:
         callers = [(c, bb) for (c, bb, t) in ctx.eff.callers_of(sp.id) if "::tests" not in c.stable]
